@@ -39,6 +39,13 @@
 (* says /F1 Tf, /CS0 cs and /Fm1 Do (names only page 1 defines): it must   *)
 (* get the default font, the default colour space and no form - whether it *)
 (* is extracted after page 1 or alone.                                     *)
+(* dA has TWO REVISIONS: revision 1 packs the Type0 fonts 6 (F2, page 1)    *)
+(* and 18 (F3, page 2) into one object stream - there object 18 carries    *)
+(* F2's ToUnicode; revision 2 redefines object 18 (no ToUnicode) as an     *)
+(* ordinary object.  calls[s].oc is the document's object cache            *)
+(* (PDFDocument._cached_objs) for these object numbers: which version of   *)
+(* the object it holds.  The current object 18 is revision 2's, whatever   *)
+(* was fetched before.                                                     *)
 (* PER PAGE (PDFPageInterpreter.fontmap / xobjmap / csmap = calls[s].fm /  *)
 (* .xo / .cs): re-initialised by AInitResources for EVERY page.            *)
 (*                                                                         *)
@@ -56,7 +63,8 @@
 (*                                                                         *)
 (* MICRO-STEPS (one per code step that touches shared or cached state):    *)
 (*   ADocOpen  APageStart  AInitResources  AInitColorSpacesCopy            *)
-(*   AFontCacheHit  AFontMiss  AGetFontSpec  AGetObjParsed                 *)
+(*   AFontCacheHit  AFontMiss  AObjCacheHit  AObjStmParse  AObjDirectParse *)
+(*   AGetFontSpec  AGetObjParsed                                           *)
 (*   ADecipherAllInPlace  ACopyDescendantSpec                              *)
 (*   AGetEncodingShared  AGetEncodingCopyOnWrite  ADifferencesAssign       *)
 (*   ADifferencesPop  AParseToUnicode                                      *)
@@ -70,6 +78,10 @@
 (*                     ASSIGNS a new value; a removal (glyph name without  *)
 (*                     Unicode value) that comes first hits the shared one *)
 (*   ColorSpaceNoCopy  csmap is PREDEFINED_COLORSPACE itself, not a copy   *)
+(*   ObjStmSiblingsCached  when an object stream is parsed ALL its members *)
+(*                     are entered into the document's object cache: a     *)
+(*                     member that a later revision redefines is then      *)
+(*                     shadowed by its stale version                       *)
 (*   InitResourcesEarlyReturn  init_resources returns for an empty         *)
 (*                     /Resources BEFORE it resets fontmap / xobjmap /     *)
 (*                     csmap: the page keeps the maps of the page the same *)
@@ -144,7 +156,12 @@ Encrypted(d) == d = "dC"
 NamesOf(d)  == <<"F1", "F2", "VerifSans", "WinAnsiEncoding", CMapOf(d)>>
                  \o (IF d = "dB" THEN <<"Differences", "g1234", "Omega">> ELSE <<>>) \o (IF d = "dC" THEN <<"ToUnicode", "Encrypt">> ELSE <<>>)
                  \o (IF CSOf(d) # 0 THEN <<"CS0", "ICCBased">> ELSE <<>>)
-\* ToUnicode of the Type0 font object o (dA: F2 only - F3 shares the descendant but has none)
+\* dA: two revisions; revision 1's object stream holds objects 6 and 18, revision 2 redefines 18 directly
+StmMembers == {6, 18}
+HasObjStm(d) == d = "dA"
+InNewestStm(d, o) == HasObjStm(d) /\ o = 6         \* the newest definition of o is a member of the object stream
+\* ToUnicode of the Type0 font object o (dA: F2 only - F3 shares the descendant but has none; the STALE object 18 of
+\* revision 1 has F2's)
 ToUni0(d, o) == [c \in Codes |-> IF d = "dA" /\ o = 6 THEN (IF c = 1 THEN "T" ELSE "U") ELSE ""]
 \* page 1 lists F1 F2 and shows codes 1 2 with each; page 2 lists F1 F3 and shows 2 1 with F1, 1 2 with F3
 \* ... except page 2 of dB: its /Resources dictionary is empty, it shows 2 1 with the NAME /F1 only
@@ -192,14 +209,15 @@ EmptyStr == [c \in Codes |-> ""]
 \* a font object.  encShared: cid2unicode IS the shared table base.enc[encName] (no Differences);  cmap: name of the
 \* cached CMap object the font holds a reference to;  src: ghost - the document whose object it was built from
 NoFont == [kind |-> "", src |-> "", encShared |-> FALSE, encName |-> "", encOwn |-> EmptyStr, touni |-> EmptyStr,
-           w |-> EmptyTab, cmap |-> "", vert |-> FALSE, garbled |-> FALSE]
+           w |-> EmptyTab, cmap |-> "", vert |-> FALSE, garbled |-> FALSE, ver |-> ""]
 NoFonts == [o \in FontObjs |-> NoFont]
 \* d9: the cached descendant dictionary - dec = decipher passes applied to it (0: not cached), tu = the ToUnicode entry
 \* it carries (none in the file)
 NoD9 == [dec |-> 0, tu |-> EmptyStr]
 Free == [st |-> "free", doc |-> "", caching |-> FALSE, pages |-> {}, kind |-> "", atomic |-> FALSE,
          fonts |-> NoFonts, d9 |-> NoD9, done |-> {}, cur |-> 0, pc |-> "", todo |-> <<>>,
-         fm |-> NoFonts, bld |-> NoFont, dec |-> 0, dk |-> 0, csShared |-> FALSE, cs |-> PristineCS, xo |-> FALSE]
+         fm |-> NoFonts, bld |-> NoFont, dec |-> 0, dk |-> 0, csShared |-> FALSE, cs |-> PristineCS, xo |-> FALSE,
+         oc |-> [o \in StmMembers |-> ""]]      \* _cached_objs for the object-stream members: "" | "new" | "old" (stale)
 
 Init == /\ base = [enc |-> PristineEnc, cs |-> PristineCS]
         /\ cmapc = [n \in CMapNames |-> [loaded |-> FALSE, tab |-> EmptyTab]]
@@ -324,7 +342,29 @@ AFontCacheHit ==
 AFontMiss ==
   /\ Micro("font") /\ Me.todo # <<>>
   /\ Cache(running)[Head(Me.todo)].kind = ""
-  /\ SetMe([Me EXCEPT !.pc = "spec", !.bld = [NoFont EXCEPT !.src = Me.doc, !.kind = IF Head(Me.todo) = 5 THEN "simple" ELSE "cid"]])
+  /\ SetMe([Me EXCEPT !.pc = IF HasObjStm(Me.doc) /\ Head(Me.todo) \in StmMembers THEN "obj" ELSE "spec",
+                      !.bld = [NoFont EXCEPT !.src = Me.doc, !.kind = IF Head(Me.todo) = 5 THEN "simple" ELSE "cid"]])
+  /\ last' = NoLast /\ UNCHANGED <<base, cmapc, umapc, interned, heap, shared, running, ncalls, client, sched>>
+
+\* PDFDocument.getobj(objid) in the two-revision document.  objid in _cached_objs: the cached object is returned
+AObjCacheHit ==
+  /\ Micro("obj") /\ Me.oc[Head(Me.todo)] # ""
+  /\ SetMe([Me EXCEPT !.bld.ver = Me.oc[Head(Me.todo)], !.pc = "spec"])
+  /\ last' = NoLast /\ UNCHANGED <<base, cmapc, umapc, interned, heap, shared, running, ncalls, client, sched>>
+\* the newest cross-reference section that lists objid says "member of the object stream": _getobj_objstm parses the stream
+\* (all members at once) and returns the requested member; ONLY that member enters _cached_objs.  Dangerous alternative:
+\* every member is entered (setdefault) - including object 18, whose current definition is revision 2's
+AObjStmParse ==
+  /\ Micro("obj") /\ Me.oc[Head(Me.todo)] = "" /\ InNewestStm(Me.doc, Head(Me.todo))
+  /\ LET o == Head(Me.todo)
+         sib(m) == IF "ObjStmSiblingsCached" \in Dev /\ Me.oc[m] = "" THEN (IF InNewestStm(Me.doc, m) THEN "new" ELSE "old") ELSE Me.oc[m] IN
+     SetMe([Me EXCEPT !.bld.ver = "new", !.pc = "spec",
+                      !.oc = IF Me.caching THEN [m \in StmMembers |-> IF m = o THEN "new" ELSE sib(m)] ELSE @])
+  /\ last' = NoLast /\ UNCHANGED <<base, cmapc, umapc, interned, heap, shared, running, ncalls, client, sched>>
+\* the newest section that lists objid gives a file offset: the object is parsed there
+AObjDirectParse ==
+  /\ Micro("obj") /\ Me.oc[Head(Me.todo)] = "" /\ ~InNewestStm(Me.doc, Head(Me.todo))
+  /\ SetMe([Me EXCEPT !.bld.ver = "new", !.pc = "spec", !.oc[Head(Me.todo)] = IF Me.caching THEN "new" ELSE @])
   /\ last' = NoLast /\ UNCHANGED <<base, cmapc, umapc, interned, heap, shared, running, ncalls, client, sched>>
 
 \* dict_value(spec): getobj of the font dictionary; for a Type0 font also dict_value(DescendantFonts[0]): object 9, taken
@@ -356,7 +396,7 @@ ADecipherAllInPlace ==
 ACopyDescendantSpec ==
   /\ Micro("copy")
   /\ LET o == Head(Me.todo)
-         own == ToUni0(Me.doc, o)
+         own == ToUni0(Me.doc, IF Me.bld.ver = "old" THEN 6 ELSE o)     \* the stale object 18 is a copy of object 6
          hasOwn == \E c \in Codes : own[c] # "" IN
      IF "DescendantNoCopy" \in Dev
      THEN SetMe([Me EXCEPT !.bld.touni = IF hasOwn THEN own ELSE Me.d9.tu,
@@ -511,7 +551,7 @@ Sched == \/ \E d \in Docs, c \in Cachings, ps \in PageSets : Open(d, c, ps) \/ \
          \/ \E s \in 1..MaxLive : Next(s) \/ Close(s)
          \/ \E n \in CMapNames : UseCMap(n)
 Step  == \/ ADocOpen \/ APageStart \/ AInitResources \/ AInitColorSpacesCopy
-         \/ AFontCacheHit \/ AFontMiss \/ AGetFontSpec \/ AGetObjParsed \/ ADecipherAllInPlace \/ ACopyDescendantSpec
+         \/ AFontCacheHit \/ AFontMiss \/ AObjCacheHit \/ AObjStmParse \/ AObjDirectParse \/ AGetFontSpec \/ AGetObjParsed \/ ADecipherAllInPlace \/ ACopyDescendantSpec
          \/ AGetEncodingShared \/ AGetEncodingCopyOnWrite \/ ADifferencesAssign \/ ADifferencesPop \/ AParseToUnicode
          \/ ACMapCacheFill \/ ACMapCacheHit \/ AUMapCacheFill \/ AUMapCacheHit
          \/ AResolveAllInPlace \/ AFontCacheFill \/ ARender
@@ -536,6 +576,9 @@ CMapCacheSound == /\ \A n \in CMapNames : cmapc[n].loaded => cmapc[n].tab = Pris
                   /\ umapc.loaded => umapc.h = PristineUMapH /\ umapc.v = PristineUMapV
 \* an object in a document's cache has been deciphered exactly once (encrypted document) / is as parsed
 DecipheredOnce == \A s \in 1..MaxLive : calls[s].d9.dec \in {0, 1}
+\* the document's object cache holds, for every object number, the object's CURRENT definition: filling the cache from a
+\* parsed object stream never shadows a newer definition
+ObjCacheNewest == \A s \in 1..MaxLive : \A m \in StmMembers : calls[s].oc[m] \in {"", "new"}
 \* a cached object is what parsing the file gives: nothing was written into it
 CachedObjectsAsParsed == \A s \in 1..MaxLive : calls[s].d9.tu = EmptyStr
 \* the shared base tables never change: no entry is assigned, none is removed
